@@ -917,6 +917,34 @@ func (w *World) exec(t []string) string {
 		w.ro[atoi(t[2])] = true
 		w.sfile[atoi(t[2])] = w.sfile[atoi(t[1])]
 		return "ok"
+	case "setforge":
+		// setforge S N K P: the value is a complete root record (one empty collection "forged")
+		// whose trailer names the offset the value will be written at, provided this item is the
+		// only dirty one at the next Flush.  The line is rewritten into the plain `set` it amounts to.
+		n, _ := unhx(t[2])
+		st, c, e := w.coll(atoi(t[1]), n)
+		if e != "" {
+			return e
+		}
+		k, _ := unhx(t[3])
+		m := map[string]uint64{}
+		st.Stats(m)
+		at := int64(m["fileSize"]) + 16 + int64(len(k))
+		v := framedRecord(at, []byte(`{"forged":{"o":0,"l":0}}`))
+		p, _ := strconv.ParseInt(t[4], 10, 64)
+		w.rewrite = fmt.Sprintf("set %s %s %s %s %s", t[1], t[2], t[3], hx(v), t[4])
+		return errClass(c.SetItem(&gkvlite.Item{Key: k, Val: v, Priority: int32(p)}))
+	case "revertspec":
+		// FlushRevert, observed as the contents the store shows afterwards (the model side answers
+		// from the specification: the state of the flush before the most recent one)
+		st := w.stores[atoi(t[1])]
+		if st == nil {
+			return "nostore"
+		}
+		if err := st.FlushRevert(); err != nil {
+			return errClass(err)
+		}
+		return "ok " + dumpStore(st)
 	case "revert":
 		st := w.stores[atoi(t[1])]
 		if st == nil {
